@@ -68,7 +68,13 @@ class CaseEval:
         prog = self.prog
         k = v.kind
         if k == 'cast':
-            return self.ev(v.args[0], depth + 1)
+            x = self.ev(v.args[0], depth + 1)
+            if isinstance(x, tuple) and x and x[0] == 'wrap':
+                # a position that wrapped below zero, truncated to the handle type: 0usize.wrapping_sub(1) as u32 is u32::MAX
+                if v.ty == 'u32' and (2 ** 64 + x[1]) % (2 ** 32) == prog.EMPTY_REF:
+                    return 'DEFAULT'
+                return None
+            return x
         if v is self.search:
             return ('result',)
         if k == 'const':
@@ -196,7 +202,9 @@ class CaseEval:
                 x, y = self.ev(v.args[0], depth + 1), self.ev(v.args[1], depth + 1)
                 r = self.arith('Sub', x, y)
                 if isinstance(r, int) and r < 0:
-                    return 0 if name == 'saturating_sub' else None
+                    if name == 'wrapping_sub' and v.ty == 'u32' and (2 ** 32 + r) == prog.EMPTY_REF:
+                        return 'DEFAULT'          # 0u32.wrapping_sub(1) is u32::MAX, the empty handle
+                    return 0 if name == 'saturating_sub' else ('wrap', r)
                 return r
             if name in ('clone', 'deref', 'borrow', 'as_ref', 'into', 'from', 'try_into', 'unwrap') and v.args:
                 return self.ev(v.args[-1] if name == 'from' else v.args[0], depth + 1)
@@ -452,7 +460,10 @@ def walk_case(prog, fn, search, case, want_reads=False):
     for rb in b.cfg.returns:
         if rb in blocks:
             for rv in resolve_phi(b.ret_val[rb], edges, {}):
-                results.append(ev.ev(rv))
+                r_ = ev.ev(rv)
+                if isinstance(r_, tuple) and r_ and r_[0] == 'wrap' and b.locals[0]['ty'] == 'u32' and (2 ** 64 + r_[1]) % (2 ** 32) == prog.EMPTY_REF:
+                    r_ = 'DEFAULT'       # a position wrapped below zero and truncated to the handle type: u32::MAX, the empty handle
+                results.append(r_)
     effects = []
     for c in b.calls:
         if c.point[0] in blocks and c is not search and c.callee_name() in ('insert', 'remove', 'swap_remove', 'push') and c.args and buffer_of(prog, c.args[0]) == ('buffer',):
@@ -460,7 +471,7 @@ def walk_case(prog, fn, search, case, want_reads=False):
     if want_reads:
         reads = []
         for c in b.calls:
-            if c.point[0] in blocks and c.callee_name() in ('get_unchecked', 'get_unchecked_mut') and len(c.args) == 2 and buffer_of(prog, c.args[0]) == ('buffer',):
+            if c.point[0] in blocks and c.callee_name() in ('get_unchecked', 'get_unchecked_mut', 'index', 'index_mut') and len(c.args) == 2 and buffer_of(prog, c.args[0]) == ('buffer',):
                 reads.append((c, ev.ev(c.args[1])))
         return results, effects, undecided, reads
     return results, effects, undecided
